@@ -146,6 +146,11 @@ func Begin(t *testing.T, id string) *Session {
 	}
 	// rapid must not write testdata/rapid fail files; we keep our own replays.
 	_ = flag.Set("rapid.nofailfile", "true")
+	st := os.Getenv("VERIF_SHRINKTIME")
+	if st == "" {
+		st = "8s"
+	}
+	_ = flag.Set("rapid.shrinktime", st)
 	return s
 }
 
@@ -214,9 +219,6 @@ func Run[I any](s *Session, sub string, n N, gen func(*rapid.T) I, check func(*C
 	}
 	_ = flag.Set("rapid.checks", strconv.Itoa(per))
 	_ = flag.Set("rapid.seed", strconv.FormatUint(subSeed(s.Seed, s.Shard, sub), 10))
-	if flag.Lookup("rapid.shrinktime") != nil && os.Getenv("VERIF_SHRINKTIME") != "" {
-		_ = flag.Set("rapid.shrinktime", os.Getenv("VERIF_SHRINKTIME"))
-	}
 	before := s.evals
 	rec := &recTB{name: s.T.Name() + "/" + sub}
 	func() {
